@@ -74,6 +74,12 @@ func newBuild(shape int, A, B, C []byte) (*hlib.Build, bool) {
 		}
 		n.Files = []hlib.File{{Path: "newdir/A", Data: clone(A)}, {Path: "B", Data: clone(B)}, {Path: "sub/C", Data: clone(C)}, {Path: "sub/C2", Data: clone(C)}}
 		n.Files[1].Data[len(B)-1] = rt.Byte("edit")
+	case 16: // A kept and duplicated onto the existing path B, while old B is renamed elsewhere
+		n.Files = []hlib.File{{Path: "A", Data: clone(A)}, {Path: "B", Data: clone(A)}, {Path: "moved-B", Data: clone(B)}, {Path: "sub/C", Data: clone(C)}}
+	case 17: // B kept and duplicated onto A and sub/C, old A renamed, old C renamed
+		n.Files = []hlib.File{{Path: "A", Data: clone(B)}, {Path: "B", Data: clone(B)}, {Path: "sub/C", Data: clone(B)}, {Path: "zA", Data: clone(A)}, {Path: "zC", Data: clone(C)}}
+	case 18: // A duplicated onto B (original removed), B renamed onto sub/C, C deleted
+		n.Files = []hlib.File{{Path: "B", Data: clone(A)}, {Path: "B2", Data: clone(A)}, {Path: "sub/C", Data: clone(B)}}
 	// kind swaps (reported under a separate finding key)
 	case 20: // file A becomes a directory holding the old content
 		n.Files[0].Path = "A/inner"
